@@ -14,6 +14,7 @@ import (
 	"runtime/debug"
 	"sort"
 	"strings"
+	"sync"
 	"sync/atomic"
 	"time"
 
@@ -363,6 +364,8 @@ func repoPanicSite(stack string) string {
 // guard runs fn and converts a panic inside the module under test into a
 // violation; harness panics (infraError) are re-raised.
 func guard(step int, what string, fn func() *Violation) (v *Violation) {
+	watchdogEnter(step, what)
+	defer watchdogLeave()
 	defer func() {
 		if r := recover(); r != nil {
 			if ie, ok := r.(infraError); ok {
@@ -464,3 +467,118 @@ func mhPrimaryOf(s *store.Store) *mhprimary.MultihashPrimary {
 var _ = index.IndexVersion
 var _ = types.ErrKeyExists
 var _ = bytes.Equal
+
+// closeQuietly closes a store whose verdict is already decided. A panic that
+// was recovered inside module code can leave one of the store's mutexes
+// locked for ever; Close would then block, so it runs on its own goroutine
+// and is abandoned after a short wait.
+func closeQuietly(s *store.Store) {
+	done := make(chan struct{})
+	go func() {
+		defer close(done)
+		defer func() { recover() }()
+		s.Close()
+	}()
+	select {
+	case <-done:
+	case <-time.After(2 * time.Second):
+	}
+}
+
+// ---------------------------------------------------------------------------
+// Hang watchdog for the sequential engines. A call into the store that never
+// returns is a violation of every sequential property (the reference model
+// always returns). The verdict is taken from goroutine states, not from
+// elapsed time alone: the calling goroutine must sit in a lock / channel wait
+// with a frame of the module on its stack, unchanged across two samples, for
+// a call that has been running for a long time. The goroutine cannot be
+// recovered, so the violation is recorded, the evidence written and the
+// process ended.
+
+var watchdog struct {
+	mu      sync.Mutex
+	gid     int64
+	since   time.Time
+	step    int
+	what    string
+	depth   int
+	ev      *Evidence
+	curCase func() interface{}
+	started bool
+}
+
+func watchdogEnter(step int, what string) {
+	watchdog.mu.Lock()
+	if watchdog.depth == 0 {
+		watchdog.gid = goroutineID()
+		watchdog.since = time.Now()
+		watchdog.step, watchdog.what = step, what
+	}
+	watchdog.depth++
+	watchdog.mu.Unlock()
+}
+
+func watchdogLeave() {
+	watchdog.mu.Lock()
+	watchdog.depth--
+	watchdog.mu.Unlock()
+}
+
+// watchdogStart arms the watchdog for a check. curCase returns the case being
+// evaluated (for the replay file).
+func watchdogStart(ev *Evidence, curCase func() interface{}) {
+	watchdog.mu.Lock()
+	watchdog.ev, watchdog.curCase = ev, curCase
+	if watchdog.started {
+		watchdog.mu.Unlock()
+		return
+	}
+	watchdog.started = true
+	watchdog.mu.Unlock()
+	go func() {
+		blockedState := func(gid int64) (string, string) {
+			for _, g := range allGoroutines() {
+				if g.id != gid {
+					continue
+				}
+				blocked := strings.HasPrefix(g.state, "sync.") || g.state == "chan receive" || g.state == "chan send" || g.state == "select" || g.state == "semacquire"
+				if !blocked || !strings.Contains(g.stack, "github.com/ipld/go-storethehash/") {
+					return "", ""
+				}
+				return g.state, repoPanicSite(g.stack)
+			}
+			return "", ""
+		}
+		for {
+			time.Sleep(2 * time.Second)
+			watchdog.mu.Lock()
+			depth, gid, since, step, what := watchdog.depth, watchdog.gid, watchdog.since, watchdog.step, watchdog.what
+			ev, cur := watchdog.ev, watchdog.curCase
+			watchdog.mu.Unlock()
+			if depth == 0 || time.Since(since) < 45*time.Second || ev == nil {
+				continue
+			}
+			st1, site1 := blockedState(gid)
+			if st1 == "" {
+				continue
+			}
+			time.Sleep(3 * time.Second)
+			watchdog.mu.Lock()
+			same := watchdog.depth > 0 && watchdog.gid == gid && watchdog.since == since
+			watchdog.mu.Unlock()
+			st2, site2 := blockedState(gid)
+			if !same || st2 != st1 || site2 != site1 {
+				continue
+			}
+			v := viol("call-never-returns|"+what+"|"+site1, step, "a call into the store has not returned for %s; its goroutine is blocked in [%s] inside %s (deadlock)", time.Since(since).Round(time.Second), st1, site1)
+			var c interface{}
+			if cur != nil {
+				c = cur()
+			}
+			ev.Report(v, c)
+			ev.Write()
+			fmt.Fprintf(os.Stderr, "hang watchdog: %v\n", v)
+			os.Exit(3)
+		}
+	}()
+}
